@@ -3,6 +3,8 @@
 
 pub mod hist;
 pub mod sidecar;
+pub mod timeline;
+pub mod vector;
 pub mod world;
 
 use std::path::PathBuf;
@@ -81,10 +83,43 @@ pub fn main() {
             let cfg = cfg_from(&args, &property);
             let dir = scratch.join("replay");
             let _ = std::fs::create_dir_all(&dir);
-            hist::replay_history(&mut rep, &dir, &ops, &cfg);
+            let after: Box<dyn Fn(&mut world::World<'_>, &str) -> bool> = match property.as_str() {
+                "C15" => Box::new(|w, name| match name {
+                    "commit" => timeline::check_timeline(w, "after-commit"),
+                    "reopen" => timeline::check_timeline(w, "after-reopen"),
+                    "doctor" => timeline::check_timeline(w, "after-doctor"),
+                    "commit_skip_indexes" => w.sync("after commit_skip_indexes") && timeline::check_timeline(w, "time-index-absent"),
+                    _ => true,
+                }),
+                _ => Box::new(|_, _| true),
+            };
+            hist::replay_history(&mut rep, &dir, &ops, &cfg, after.as_ref());
             if std::env::var("MVDRIVE_KEEP").is_err() {
                 let _ = std::fs::remove_dir_all(&dir);
             }
+            rep
+        }
+        "c15" => {
+            let seed = args.u64("seed", 1);
+            let scratch = PathBuf::from(args.str("scratch").unwrap_or("."));
+            let mut rep = Report::new("C15", "timeline", seed, "random histories with explicit timestamps (negative, equal, i64 extremes), documents, chunked documents, extracted images with a parent, deletes and updates; after every commit / reopen / doctor and with the time index absent: unlimited forward and reverse timelines plus 4 random since/until/limit/reverse queries; a case is one operation; distinct = distinct histories");
+            timeline::run(&mut rep, &scratch, &mut Rng::new(seed), args.u64("histories", 3), args.u64("ops", 30) as usize);
+            rep
+        }
+        "c13" => {
+            let seed = args.u64("seed", 1);
+            let scratch = PathBuf::from(args.str("scratch").unwrap_or("."));
+            let mut rep = Report::new("C13", "vector-exact-nn", seed, "random embedding sets (dimension 1..64, 0..max-m vectors incl. duplicates, zero vectors, +-1e18, tie-heavy grids) x 6 queries with k in 0..m+3 judged against an f64 reference, wrong-dimension probe, identical results after reopen (rw and ro); a case is one query; distinct = distinct embedding sets");
+            vector::c13(&mut rep, &scratch, &mut Rng::new(seed), args.u64("cases", 6), args.u64("max-m", 120) as usize);
+            rep
+        }
+        "c14" => {
+            let seed = args.u64("seed", 1);
+            let scratch = PathBuf::from(args.str("scratch").unwrap_or("."));
+            let config = if cfg!(feature = "hnsw") { "hnsw_bench" } else { "default" };
+            let sizes: Vec<usize> = args.str("sizes").unwrap_or("1,2,30,120").split(',').filter_map(|s| s.parse().ok()).collect();
+            let mut rep = Report::new("C14", &format!("vector-membership[{config}]"), seed, "histories of embedded / plain puts, updates with and without a new embedding (with and without payload), deletes, until the target number of active embedded frames is reached; membership, stats().vector_count, frame_embedding and self-queries checked after commit, reopen, doctor(rebuild vec), vacuum, reopen; a case is one operation; distinct = distinct (size, history length, configuration)");
+            vector::c14(&mut rep, &scratch, &mut Rng::new(seed), &sizes, config);
             rep
         }
         "sidecar" => {
